@@ -149,11 +149,15 @@ def obligations(tier, seed):
                     [["w0", 0, wmax], ["w1", 0, wmax], ["w2", 0, wmax], ["d2", 0, 3]], {"d0": -1, "d1": -1}))
     fac = [ob for ob in profiles.p_product("F1", thorough) if "wps=2/links=0>1/wprule=0/fs" in ob["name"]][0]
     members.append(("prod-links", fac["cube"]["spec"], [[n, max(lo, 1), min(hi, 2)] for n, lo, hi in fac["params"] if n not in ("z1", "fs1")], {"z1": 1, "fs1": 1}))
+    fa = [ob for ob in profiles.p_facility(thorough) if "1wp2f/fsk=all/solof=0/fixf=None/mixed=0" in ob["name"]][0]
+    members.append(("facility-absence", fa["cube"]["spec"], [["w0", 2, 4], ["fa0", 0, 3]], {"w1": 1, "s00": 1, "f00": 1, "f11": 1, "cap": 2, "a1": -1}))
     for mname, spec, params, consts in members:
         for due in (0, 1):
             for rev in (0, 1):
                 for phase in (None, "updated", "allocated", "performed", "recorded", "updated!"):
-                    if mname == "prod-links" and due == 1:
+                    if mname in ("prod-links", "facility-absence") and due == 1:
+                        continue
+                    if mname == "facility-absence" and phase not in (None, "performed"):
                         continue
                     ikind = "exception"
                     if phase == "updated!":
